@@ -17,6 +17,14 @@ func (kgraph *KVGraph) AddGraph(graph string) error {
 		return err
 	}
 
+	// a DeleteGraph that died after it had removed the graph key leaves element and adjacency
+	// keys of that name behind: a new graph must not inherit them
+	if !kgraph.kv.HasKey(GraphKey(graph)) {
+		if err := kgraph.deleteGraphData(graph); err != nil {
+			return err
+		}
+	}
+
 	kgraph.ts.Touch(graph)
 	err = kgraph.setupGraphIndex(graph)
 	if err != nil {
@@ -39,6 +47,11 @@ func (kgraph *KVGraph) DeleteGraph(graph string) error {
 	graphKey := GraphKey(graph)
 	kgraph.kv.Delete(graphKey)
 
+	return kgraph.deleteGraphData(graph)
+}
+
+// deleteGraphData removes the elements, the adjacency entries and the index fields of `graph`
+func (kgraph *KVGraph) deleteGraphData(graph string) error {
 	eprefix := EdgeListPrefix(graph)
 	if err := kgraph.kv.DeletePrefix(eprefix); err != nil {
 		return err
